@@ -16,6 +16,30 @@ CLAIMED = {
         note=TB + "Modelled not verified: CPython struct for the '<' formats BHIQbhiq/x/s (Lib/Struct.v, diffed each run); format strings are complete items.",
         technique="Coq proof by induction on struct formats + differential model/code correspondence",
         ref="7/C13"),
+    "C11": dict(
+        text="Theorem C11_wellformed (induction over every accepted non-empty datagram list; lengths, commands, addresses, wkc presets, index and ethertype "
+             "universally quantified): the assembled frame is read back by an independent ETG.1000.4 parser as exactly the identification datagram plus the "
+             "given datagrams, data at the positions append reported, header length = payload, padded to 46, never above MAXSIZE; C11_rejects characterises "
+             "rejection. Constants (MAXSIZE, header sizes, count limit, padding) are regenerated from the source each run. The sterile copy is covered by the "
+             "correspondence and the oracle (differs only in NOP command bytes of write datagrams), not yet by a theorem.",
+        note=TB + "Modelled: Packet.append/assemble/full, SterilePacket.append_writer/sterile (Ecat/Frame.v); struct '<' formats. Sterile-copy statement is "
+             "checked by differential testing only (partial).",
+        technique="Coq proof against an independent frame parser + differential correspondence",
+        ref="7/C11"),
+    "C20": dict(
+        text="Theorems C20_distinct_slots (invariant over ALL map/unmap sequences, any FMMU count, by induction on the operation list), C20_takes_free, "
+             "C20_full_fails, C20_release_own about a model of Terminal.map_fmmu that keeps Python's reversed-slice clipping, list.index and negative-index "
+             "assignment semantics; tied to the code by running random (thorough: exhaustive to length 5) operation sequences through the real async context manager.",
+        note=TB + "Modelled: slot choice and release in Terminal.map_fmmu; the FMMU register writes are assumed to succeed (failure paths belong to C24).",
+        technique="Coq invariant proof over operation sequences + differential correspondence",
+        ref="7/C20"),
+    "C27": dict(
+        text="Theorems C27_follow, C27_timeout_default, C27_timeout (both safe states), C27_follow_any_safe, C27_lastgood hold for every valve state, switch "
+             "reading and clock value, hence along every history; tied to devices.Valve by running random histories through the real device with real "
+             "TerminalVar/PacketVar/DeviceVar descriptors and a scripted clock.",
+        note=TB + "Modelled: Valve.update/reset (Dev/Valve.v); time.monotonic replaced by a scripted integer clock.",
+        technique="Coq proof by case analysis over all states + differential correspondence",
+        ref="7/C27"),
 }
 
 REASONS_NOT_YET = "no check built yet in this round (planned, see DESIGN.md section 7); nothing is claimed for it"
